@@ -54,6 +54,7 @@ fn main() {
                     "parsetotal" => parsetotal::replay(cases),
                     "extract" => extract::replay(cases),
                     "cli" => cli::replay(cases),
+                    "session" => cli::replay_session(cases),
                     m => { eprintln!("unknown module {}", m); exit(2) }
                 }
             };
